@@ -56,8 +56,8 @@ def other_kind_value(kind, cur, ops, j):
     return None
 
 
-MUTATION_KINDS = ['value', 'value-kind', 'rename', 'origin', 'data', 'data-same-type', 'cast', 'cast-clear', 'dimension',
-                  'hdr-seq', 'set-rename']
+MUTATION_KINDS = ['value', 'value-kind', 'rename', 'rename-add', 'origin', 'data', 'data-same-type', 'cast', 'cast-clear',
+                  'dimension', 'hdr-seq', 'set-rename']
 
 
 def mutation(spec, serial=0, want=None, probe=None, at=None):
@@ -96,6 +96,8 @@ def _mutation_at(draw, spec, serial, at, want, free_code, idx):
     # creation) and the new name is globally fresh
     if sum(1 for o in ops if o['t'] == op['t'] and o.get('name') == op['name']) == 1:
         kinds.append('rename')
+        if op['t'] not in ('channel', 'frame', 'origin', 'no_format'):
+            kinds.append('rename-add')      # ... and afterwards another object of the type is added under the old / new name
     settable = [k for k, a in TYPES[op['t']]['attrs'].items()
                 if a.kind in ('num', 'fdoubl', 'text', 'ident') and not a.multi and k in (op.get('attrs') or {})]
     if settable:
@@ -137,6 +139,9 @@ def _mutation_at(draw, spec, serial, at, want, free_code, idx):
         m.update(kind='value', kw=kw, v=rekind[kw], rekind=True)
     elif kind == 'rename':
         m['name'] = 'FRESH-' + str(serial)
+    elif kind == 'rename-add':
+        m['name'] = 'FRESH-' + str(serial)
+        m['add'] = draw(st.sampled_from(['old', 'new']))
     elif kind == 'data-same-type':
         # other values, same dtype and shape: only values derived from the data (index statistics) may change
         m['kind'] = 'data'
@@ -262,6 +267,14 @@ def apply_mutation_to_spec(spec, m):
             # the dataset name was fixed when the channel was created
             op['dsname'] = B.dataset_names(spec, 0)[m['op']]
         op['name'] = m['name']
+    elif m['kind'] == 'rename-add':
+        added = {'t': op['t'], 'name': op['name'] if m['add'] == 'old' else m['name'], 'attrs': {}}
+        if op.get('set') is not None:
+            added['set'] = op['set']
+        op['name'] = m['name']
+        spec['lfs'][0]['ops'].append(added)
+        if spec.get('order'):
+            spec['order'].append([0, len(spec['lfs'][0]['ops']) - 1])
     elif m['kind'] == 'origin':
         op['oref'] = {'$origin': m['to']}
     elif m['kind'] == 'data':
@@ -291,6 +304,12 @@ def apply_mutation_to_objects(built, spec, m):
         getattr(item, TYPES[op['t']]['attrs'][m['kw']].py).value = model.to_python(m['v'], lambda k: built.items[(0, k)])
     elif m['kind'] == 'rename':
         item.name = m['name']
+    elif m['kind'] == 'rename-add':
+        old_name = item.name
+        item.name = m['name']
+        kw = {'set_name': op['set']} if op.get('set') is not None else {}
+        new = getattr(built.lfs[0], TYPES[op['t']]['method'])(old_name if m['add'] == 'old' else m['name'], **kw)
+        built.items[(0, len(spec['lfs'][0]['ops']))] = new
     elif m['kind'] == 'origin':
         item.origin_reference = built.items[(0, m['to'])].origin_reference
     elif m['kind'] == 'data':
@@ -353,7 +372,7 @@ class C14(Property):
                  "pool; after every write the bytes are compared with those produced by a fresh process (pristine "
                  "zygote fork, cross-checked with a real subprocess) for the net specification")
     rule = ("cases: histories of 3-10 steps (build; write with drawn chunk sizes and row window; write again; mutate an "
-            "attribute value (same kind, or another kind for attributes without a fixed representation code) / object name / origin reference / channel data (same or other dtype and width) / cast "
+            "attribute value (same kind, or another kind for attributes without a fixed representation code) / object name (optionally followed by adding an object under the old or the new name) / origin reference / channel data (same or other dtype and width) / cast "
             "dtype (set, cleared) / channel DIMENSION / header sequence number / name of a set; high-compatibility write of an "
             "unrelated file; write with only part of the data dict) over 1-2 specifications drawn from pools {0, -0.0, "
             "0.0, False, 1, 1.0, True, 2, 2.0}, 8 strings (two of 128 and 200 characters), 3 names, named and unnamed "
@@ -385,6 +404,7 @@ class C14(Property):
         built = {}
         viol = []
         labels = []
+        set_renamed = set()
         writes = 0
         mutated = False
         swapped = set()      # slots whose channel data were replaced after an earlier write
@@ -410,6 +430,20 @@ class C14(Property):
                 m = step['m']
                 if m['kind'] == 'none':
                     continue
+                if m['kind'] == 'set-rename':
+                    set_renamed.add(k)
+                if m['kind'] == 'rename-add' and k in set_renamed:
+                    # after a set was given another name through its public attribute the logical file still files it
+                    # under the old one, so a later add_* opens a second set: not a history with a net specification
+                    labels.append('mutation-skipped')
+                    continue
+                if m['kind'] in ('rename', 'rename-add'):
+                    # (the mutation was drawn against the initial specification: an earlier rename-add may have given the
+                    # object a namesake, and renaming is only unambiguous for a name that is unique within its type)
+                    cur = specs[k]['lfs'][0]['ops']
+                    if sum(1 for x in cur if x['t'] == cur[m['op']]['t'] and x.get('name') == cur[m['op']]['name']) != 1:
+                        labels.append('mutation-skipped')
+                        continue
                 try:
                     apply_mutation_to_objects(built[k], specs[k], m)
                 except Exception as exc:
